@@ -48,7 +48,7 @@ type FuncReport struct {
 
 func newFnExec(p *Program, fn *ssa.Function, c *Contract) *fnExec {
 	return &fnExec{P: p, top: fn, C: c, notes: map[string]bool{}, inlined: map[string]bool{}, abstracted: map[string]bool{},
-		assumed: map[string]bool{}, atCallHits: map[*AtCall]int{}, wfSeen: map[int]bool{}}
+		assumed: map[string]bool{}, atCallHits: map[*AtCall]int{}, wfSeen: map[int]bool{}, modelNames: map[string]string{}}
 }
 
 // bindClauseAt binds a clause at an arbitrary position with extra literal parameters.
@@ -158,6 +158,8 @@ func (x *fnExec) generate() {
 			x.assumed["assume#"+cl.Label+" in "+c.Key+": "+cl.Src] = true
 		}
 	}
+	// no lock has been released by this call yet
+	st.setArr("X:released", ConstArr(Arr(SRef, SBool), False))
 	fr.entry = st.clone()
 	if len(c.Serial) > 0 {
 		// the audit obligation exists even when the function has no raw comparison today
@@ -510,15 +512,27 @@ func (x *fnExec) buildQuery(o *Obl, useQuant bool, exact bool) (smt string, getV
 	present := map[int]bool{}
 	Subterms(roots, func(t *Term) { present[t.id] = true })
 	qf := allQ
+	if x.instLevel == 0 {
+		qf = nil
+	}
+	usedQ = len(allQ)
 	var insts []*Term
 	if len(qf) > 0 {
-		usedQ = len(qf)
-		// two rounds of instantiation
+		// two rounds of instantiation (one, from the goal's own terms only, at level 1)
 		known := map[int]bool{}
 		cur := roots
-		for round := 0; round < 2; round++ {
+		rounds := 2
+		if x.instLevel == 1 {
+			rounds = 1
+			cur = []*Term{o.goal}
+		}
+		for round := 0; round < rounds; round++ {
 			// terms of the goal and its path condition first: the cap below then cuts the least relevant ones
-			cands := candidates(append(append([]*Term{o.goal, o.hyp}, cur...), insts...))
+			seed := []*Term{o.goal, o.hyp}
+			if x.instLevel == 1 {
+				seed = []*Term{o.goal}
+			}
+			cands := candidates(append(append(seed, cur...), insts...))
 			var newInsts []*Term
 			for _, q := range qf {
 				lists := make([][]*Term, len(q.vars))
@@ -668,6 +682,11 @@ func (x *fnExec) buildQuery(o *Obl, useQuant bool, exact bool) (smt string, getV
 			getVals = append(getVals, sk.Name)
 		}
 	}
+	// scalar fields of the pre-state read through the inputs: part of the counterexample
+	for _, t := range w.sels {
+		getVals = append(getVals, w.done[t.id])
+		x.modelNames[w.done[t.id]] = t.Short()
+	}
 	return w.sb.String(), getVals, usedQ, usedOpaque
 }
 
@@ -698,6 +717,7 @@ func (x *fnExec) discharge(cfg Config, filter func(o *Obl) bool) []*OblResult {
 				results[i] = siteResult{o, SolveResult{Status: "sat", Backend: "skipped"}, 0}
 				continue
 			}
+			x.instLevel = 2
 			smt, _, _, _ := x.buildQuery(o, false, false)
 			to := cfg.TimeoutS
 			if to > 15 {
@@ -714,9 +734,21 @@ func (x *fnExec) discharge(cfg Config, filter func(o *Obl) bool) []*OblResult {
 			results[i] = siteResult{o, SolveResult{Status: "unsat", Backend: "trivial"}, 0}
 			continue
 		}
+		x.instLevel = 2
 		smt, gv, nq, nop := x.buildQuery(o, false, false)
+		var staged []string
+		if nq > 0 && len(smt) > 400000 {
+			// big query: cheaper attempts first: no instances of the quantified hypotheses, then instances at the goal's own terms
+			x.instLevel = 0
+			s0, _, _, _ := x.buildQuery(o, false, false)
+			x.instLevel = 1
+			s1, _, _, _ := x.buildQuery(o, false, false)
+			x.instLevel = 2
+			staged = []string{s0, s1}
+		}
 		var smtExact string
 		if nop > 0 {
+			x.instLevel = 2
 			smtExact, _, _, _ = x.buildQuery(o, nq > 0, true)
 		}
 		if cfg.KeepSMT != "" {
@@ -725,6 +757,7 @@ func (x *fnExec) discharge(cfg Config, filter func(o *Obl) bool) []*OblResult {
 		}
 		var smtQ string
 		if nq > 0 {
+			x.instLevel = 2
 			smtQ, _, _, _ = x.buildQuery(o, true, false)
 		}
 		wg.Add(1)
@@ -733,6 +766,19 @@ func (x *fnExec) discharge(cfg Config, filter func(o *Obl) bool) []*OblResult {
 			defer wg.Done()
 			defer func() { <-sem }()
 			name := fmt.Sprintf("%s.%d", o.Name, i)
+			for k, s := range staged {
+				to := cfg.TimeoutS / 3
+				if to < 5 {
+					to = 5
+				}
+				rs := solve(fmt.Sprintf("%s.s%d", name, k), s, nil, to, false)
+				if rs.Status == "unsat" {
+					mu.Lock()
+					results[i] = siteResult{o, rs, nq}
+					mu.Unlock()
+					return
+				}
+			}
 			r := solve(name, smt, gv, cfg.TimeoutS, cfg.WantAll && !o.Smoke)
 			if nq > 0 && r.Status != "unsat" && !o.Smoke {
 				// a model of an under-instantiated query is not a counterexample: retry with quantifiers
@@ -783,7 +829,13 @@ func (x *fnExec) discharge(cfg Config, filter func(o *Obl) bool) []*OblResult {
 			if ag.Status != "refuted" {
 				ag.Status = "refuted"
 				ag.FailSite = o.Site
-				ag.Model = sr.res.Model
+				ag.Model = map[string]string{}
+				for k, val := range sr.res.Model {
+					if n, ok := x.modelNames[k]; ok {
+						k = n
+					}
+					ag.Model[k] = val
+				}
 				ag.Output = truncate(sr.res.Output, 4000)
 				ag.Backend = sr.res.Backend
 			}
